@@ -97,6 +97,13 @@ class C10(ProgramProperty):
             steps.append({"op": "discover", "dst": D, "src": 0, "uris": [cps(u) for u in uris], "delims": [],
                           "cutoff": None, "metaprefix": cps("ns"),
                           "alnum": sorted({ord(ch) for u in uris for ch in u if ch.isalnum()})})
+        # degenerate arguments (nothing to do): an empty mapping, a mapping of unknown names only, an empty / full subset
+        if kind in ("remap_curie", "remap_uri", "rewire") and rng.random() < 0.2:
+            steps[-1]["mapping"] = [] if rng.random() < 0.6 else [[cps("nosuch1"), cps("nosuch2")]]
+            kind += ":noop"
+        elif kind == "sub" and rng.random() < 0.3:
+            steps[-1]["prefixes"] = [] if rng.random() < 0.3 else [cps(x) for x in pa]
+            kind += ":all-or-nothing"
         steps += [q(D, "records"), q(D, "delimiter")]
         steps += observe(0, probes_p, probes_u) + observe(1, probes_p, probes_u)
         # follow-ups on the derived converter, aimed at records inherited from the inputs
@@ -117,7 +124,7 @@ class C10(ProgramProperty):
                 steps.append({"op": "add_record", "c": D, "record": new, "merge": rng.random() < 0.85})
             steps += [q(D, "records")]
             steps += observe(0, probes_p, probes_u) + observe(1, probes_p, probes_u)
-        return {"steps": steps, "kind": kind, "D": D, "tags": ["derive=" + kind, f"followups={nf}"]}
+        return {"steps": steps, "kind": kind.split(":")[0], "D": D, "tags": ["derive=" + kind, f"followups={nf}"]}
 
     def run_impl(self, case):
         """Also observe object identity: the derived converter must not hold any Record object of an input
